@@ -39,6 +39,7 @@ type opCtx struct {
 	probes    []string
 	ticks     int
 	yieldsIn  map[string]int
+	obs       []cbObs // raw observations of the C17 callbacks
 }
 
 func newOpCtx(failAt int) *opCtx {
@@ -207,6 +208,9 @@ func cbEnter(kind string) (*runCtx, *opCtx) {
 }
 
 func callback(key string) (any, error) {
+	if fn, ok := c17Callback(key); ok {
+		return fn, nil
+	}
 	name, arg, _ := strings.Cut(key, ":")
 	switch name {
 	case "ident":
